@@ -141,7 +141,7 @@ class ResourceScenario(ScenarioData):
                 if hasattr(leave, "interval"):
                     start_idx = self.project.dateToIdx(leave.interval.start)
                     end_idx = self.project.dateToIdx(leave.interval.end)
-                    for i in range(start_idx, min(end_idx, size)):
+                    for i in range(max(start_idx, 0), min(end_idx, size)):
                         sb = self.scoreboard[i]
                         val = 0 if sb is None else (sb & 2)
                         leave_type = leave.type_idx if hasattr(leave, "type_idx") else 0
@@ -154,7 +154,7 @@ class ResourceScenario(ScenarioData):
                 if hasattr(leave, "interval"):
                     start_idx = self.project.dateToIdx(leave.interval.start)
                     end_idx = self.project.dateToIdx(leave.interval.end)
-                    for i in range(start_idx, min(end_idx, size)):
+                    for i in range(max(start_idx, 0), min(end_idx, size)):
                         sb = self.scoreboard[i]
                         if sb is not None:
                             leave_idx = (sb & 0x3C) >> 2
